@@ -353,15 +353,15 @@ def dense_poly(yx, nst, ncols):
 
 
 def run(ctx):
-    gen(ctx)
+    ctx.guard("regenerate", gen, ctx)
     ok = ctx.lean_build(["HitenModel.Props.C02", "HitenModel.Props.C02Ctl"])
     if ok:
         ctx.lean_audit(["HitenModel.Props.C02", "HitenModel.Props.C02Ctl"],
                        ["HitenModel.Props.C02", "HitenModel.Props.C02Ctl", "HitenModel.Gen.C02", "HitenModel.Core.Dy", "HitenModel.Core.C02Ctl", "HitenModel.Lemmas.Trees"])
         if ctx.thorough():
             ctx.leanchecker(["HitenModel.Props.C02", "HitenModel.Props.C02Ctl"])
-    controller_corr(ctx)
-    validate_traces(ctx)
+    ctx.guard("controller_corr", controller_corr, ctx)
+    ctx.guard("validate_traces", validate_traces, ctx)
     numerics(ctx)
     if not ctx.violations:
         ham_tolerance(ctx)
